@@ -323,4 +323,53 @@ def loadY (c : Cfg) (files : List (List Reset.YNode)) : Out KVs :=
 def load (c : Cfg) (docs : List KVs) : Out KVs :=
   if docs.isEmpty then .err "nofiles" else (loadYamlModel c docs).bind (finishLoad c)
 
+/-! ## the stage skeleton this module composes
+
+The calls of the Go glue in source order, each with the option test that guards it — written next to the definitions
+above and compared with the skeleton regenerated from loader/loader.go (`Gen/PipelineSource.lean`) by
+`Props/C01Whole.glue_skeleton_is_modelled`.  Where a row is outside the composed model the comment says who owns it. -/
+
+/-- `loadYamlFile`: `processRawYaml` (= `processDoc` / `processNode`) and the decode loop (= `processNodes`) -/
+def skeletonLoadYamlFile : List String := [
+  "convertToStringKeysRecursive | -",                                            -- identity on `Val` (`convert_ofVal`); C01 stage model
+  "interp.Interpolate | opts.Interpolate != nil && !opts.SkipInterpolation",    -- `interpStage`
+  "fixEmptyNotNull | -",                                                         -- identity on `Val` (`convert_ofVal`); C01 stage model
+  "ApplyExtends | !opts.SkipExtends",                                            -- `extendsStage` (same-file bases; cross-file: C05's world)
+  "processor.Apply | -",                                                         -- `Reset.applyNull` in `processNode`
+  "ApplyInclude | !opts.SkipInclude",                                            -- out: C06's world model
+  "override.Merge | -",                                                          -- `mergeStages` …
+  "override.EnforceUnicity | -",
+  "schema.Validate | !opts.SkipValidation",                                      -- `schemaStage`
+  "opts.warnObsoleteVersion | !opts.SkipValidation && ok",                       -- a log line (C19 owns its lock)
+  "delete | !opts.SkipValidation && ok",                                         -- `schemaStage`: `erase "version"`
+  "transform.Canonical | -",
+  "OmitEmpty | -",
+  "override.EnforceUnicity | -",
+  "yaml.NewDecoder | file.Config == nil",                                        -- `loadY`: YAML text
+  "decoder.Decode | file.Config == nil",                                         -- `Reset.readDoc` per document
+  "processRawYaml | file.Config == nil",                                         -- `processNode`
+  "processRawYaml | !(file.Config == nil)"]                                      -- `processDoc`
+
+/-- `loadYamlModel`: the loop (`processDocs` / `processFiles`) and `finishModel` -/
+def skeletonLoadYamlModel : List String := [
+  "loadYamlFile | -",
+  "transform.SetDefaultValues | !opts.SkipDefaultValues",                        -- `defaultsStage`
+  "validation.Validate | !opts.SkipValidation",                                  -- `validateStage`
+  "paths.ResolveRelativePaths | opts.ResolvePaths",                              -- `pathsStage`
+  "ResolveEnvironment | len(included) == 0",                                     -- `envStage` (the main model)
+  "resolveServicesEnvironment | !(len(included) == 0)",                          -- included models: C06 / C20
+  "resolveSecretsEnvironment | !(len(included) == 0)"]
+
+/-- `load`: `loadYamlModel` then `finishLoad` (the two error returns in between carry no stage call) -/
+def skeletonLoad : List String := [
+  "loadYamlModel | -",
+  "Normalize | !opts.SkipNormalization"]
+
+/-- `loadModelWithContext`: `projectName` (C17's model; the streams set the name imperatively), then `load` -/
+def skeletonLoadModelWithContext : List String := ["projectName | -", "load | -"]
+
+/-- `ResolveEnvironment`: `resolveEnvironment` -/
+def skeletonResolveEnvironment : List String := [
+  "resolveServicesEnvironment | -", "resolveSecretsEnvironment | -", "resolveConfigsEnvironment | -"]
+
 end CV.Pipeline
